@@ -371,9 +371,9 @@ func exhaustive(emit func(proto.Case), tag string, patAlpha []string, patLen int
 }
 
 func gen(r *prng.R, f proto.Flags, emit func(proto.Case)) {
-	n := 2500
+	n := 5000
 	if f.Tier == "thorough" {
-		n = 20000
+		n = 40000
 	}
 	n *= f.Budget
 	for k := 0; k < n; k++ {
@@ -390,6 +390,8 @@ func gen(r *prng.R, f proto.Flags, emit func(proto.Case)) {
 		exhaustive(emit, "xa", []string{"a", "b", "{p}", "*"}, 2, []string{"a", "b", "c"}, 3, 0)
 		// all sets of <= 3 patterns of <= 3 path segments over {a,{p},*}, all orders, all URLs of <= 4 segments over {a,b}
 		exhaustive(emit, "xb", []string{"a", "{p}", "*"}, 3, []string{"a", "b"}, 4, 0)
+		// two parameter names (name conflicts are build errors): <= 2 path segments over {a,b,{p},{q},*}
+		exhaustive(emit, "xc", []string{"a", "b", "{p}", "{q}", "*"}, 2, []string{"a", "b", "c"}, 3, 0)
 	} else {
 		// quick: the sets of <= 2 patterns of the first universe
 		exhaustive(emit, "xa", []string{"a", "{p}", "*"}, 2, []string{"a", "b"}, 3, 0)
